@@ -55,6 +55,10 @@ pub struct OStats {
     pub refresh_queries: u64,
     pub truncated_accepted: u64,
     pub announcements_judged: u64,
+    pub tokio_windows: u64,
+    pub tokio_replies_judged: u64,
+    pub tokio_known_exact: u64,
+    pub tokio_ingests: u64,
     pub cut_short: bool,
 }
 
@@ -67,7 +71,7 @@ impl OStats {
             ingest_filtered_own, ingest_filtered_foreign, known_exact, known_exact_nonempty, known_safety_only,
             known_with_expired_entries, discovered_judged, discovered_skipped, dumps_judged, dump_entries,
             dumps_with_expired, c16_instances, c16_dump_checks, probes_sent, probes_answered, probes_excluded,
-            api_probes, resolver_probes, panics_seen, refresh_queries, truncated_accepted, announcements_judged);
+            api_probes, resolver_probes, panics_seen, refresh_queries, truncated_accepted, announcements_judged, tokio_windows, tokio_replies_judged, tokio_known_exact, tokio_ingests);
     }
 }
 
@@ -366,7 +370,26 @@ pub fn analyse(sc: &Scenario, out: &RunOutput) -> Analysis {
             st.cut_short = true;
             None
         }
+        Outcome::Spin => {
+            st.cut_short = true;
+            None
+        }
     };
+
+    if let (Outcome::Spin, Some(tid)) = (res.outcome, res.spin_tid) {
+        // which datagram was the thread handling?
+        let last = res.trace.iter().rev().find(|e| e.tid == tid && matches!(e.kind, EvKind::Recv { .. }));
+        let what = match last {
+            Some(Ev { kind: EvKind::Recv { dgram, .. }, .. }) => {
+                let b = &res.dgrams[*dgram as usize].bytes;
+                format!("after dequeuing a {}-byte datagram {:02x?}", b.len(), &b[..b.len().min(48)])
+            }
+            _ => "(no datagram dequeued by that thread)".to_string(),
+        };
+        let name = &res.thread_names[tid as usize];
+        let kind = if name.contains('/') { "service" } else { "application" };
+        push("C14", format!("spin:{}-thread", kind), format!("thread {} (node {}) reached no scheduling point for {} ms of real time {}: the handling does not terminate", name, res.thread_nodes[tid as usize] as i64, 10_000, what));
+    }
 
     let n_nodes = sc.nodes.len();
     let mut models: Vec<NodeModel> = vec![NodeModel::default(); n_nodes];
@@ -453,6 +476,7 @@ pub fn analyse(sc: &Scenario, out: &RunOutput) -> Analysis {
     }
 
     // ---- walk the trace
+    let mut findings_extra: Vec<Finding> = Vec::new();
     let mut pending: HashMap<u32, Pending> = HashMap::new();
     let mut windows: HashMap<u32, Window> = HashMap::new();
     let mut dgram_exact: HashMap<u32, bool> = HashMap::new();
@@ -474,6 +498,10 @@ pub fn analyse(sc: &Scenario, out: &RunOutput) -> Analysis {
             let w: Window = $w;
             let node = node_of($tid);
             st.windows += 1;
+            let is_tokio = is_tokio_node(sc, node);
+            if is_tokio {
+                st.tokio_windows += 1;
+            }
             if let Some(q) = &w.query {
                 if !w.exact {
                     st.queries_skipped_inexact += 1;
@@ -496,6 +524,9 @@ pub fn analyse(sc: &Scenario, out: &RunOutput) -> Analysis {
                     }
                     for (_, d, _) in ok_sends {
                         st.replies_judged += 1;
+                        if is_tokio {
+                            st.tokio_replies_judged += 1;
+                        }
                         let dg = &res.dgrams[*d as usize];
                         if nothing {
                             push("C13", "reply-when-nothing-matches".into(), format!("node {}: a reply was sent for query id {} although no registered record matches", node, q.id));
@@ -533,7 +564,7 @@ pub fn analyse(sc: &Scenario, out: &RunOutput) -> Analysis {
                         m.inc = inc;
                         m.active = true;
                         crashed.remove(&(n as u32));
-                        if let NodeKind::Discovery { service, instance, ttl, channel } = &sc.nodes[n].kind {
+                        if let NodeKind::Discovery { service, instance, ttl, channel, .. } = &sc.nodes[n].kind {
                             m.is_discovery = true;
                             m.service = name_from_str(service);
                             m.channel = *channel;
@@ -609,6 +640,9 @@ pub fn analyse(sc: &Scenario, out: &RunOutput) -> Analysis {
                             let m = &mut models[n];
                             if m.is_discovery && m.active {
                                 st.ingests += 1;
+                                if is_tokio_node(sc, n as u32) {
+                                    st.tokio_ingests += 1;
+                                }
                                 let decoded = refdns::decode(&dg.bytes, false);
                                 let mut recs: Vec<(RecKey, u32, bool)> = Vec::new();
                                 let mut fuzzy = !exact;
@@ -783,6 +817,14 @@ pub fn analyse(sc: &Scenario, out: &RunOutput) -> Analysis {
             EvKind::RecvErr { kind, .. } => {
                 let _ = matches!(kind, RecvErrKind::Timeout);
             }
+            EvKind::RecvArm { .. } => {
+                // back at the top of the receive loop: the previous datagram is dealt with
+                if is_service_thread(tid) {
+                    if let Some(w) = windows.remove(&tid) {
+                        close_window!(tid, w, false);
+                    }
+                }
+            }
             EvKind::Send { dgram, err, .. } => {
                 let d = *dgram;
                 let dg = &res.dgrams[d as usize];
@@ -826,6 +868,18 @@ pub fn analyse(sc: &Scenario, out: &RunOutput) -> Analysis {
                         }
                     } else {
                         st.other_sends_parse_checked += 1;
+                        if let NodeKind::Discovery { instance, ttl, asyncv: true, .. } = &sc.nodes[node as usize].kind {
+                            // the tokio variant announces from its execution task
+                            let m = &models[node as usize];
+                            if m.active && !m.removed {
+                                if let Ok(msg) = refdns::decode(&dg.bytes, true) {
+                                    if msg.is_response() {
+                                        st.announcements_judged += 1;
+                                        judge_announcement(node, m, instance, *ttl, &msg, &mut findings_extra);
+                                    }
+                                }
+                            }
+                        }
                         if res.thread_names[tid as usize].matches('/').count() >= 1 && dg.bytes.len() >= 12 && dg.bytes[2] & 0x80 == 0 {
                             st.refresh_queries += 1;
                         }
@@ -848,20 +902,7 @@ pub fn analyse(sc: &Scenario, out: &RunOutput) -> Analysis {
                             if let Ok(msg) = refdns::decode(&dg.bytes, true) {
                                 if msg.is_response() {
                                     st.announcements_judged += 1;
-                                    let want: BTreeSet<RecKey> = instance_records(&m.service, instance, *ttl, false).iter().map(|r| r.key().norm()).collect();
-                                    let got: BTreeSet<RecKey> = msg.answers.iter().map(|r| r.key().norm()).collect();
-                                    for k in want.difference(&got) {
-                                        push("C15", "announce:record-missing".into(), format!("node {}: the announcement of instance {:?} lacks its {} record (type {}, rdata {:?})", node, instance.name, name_to_string(&k.owner), k.rtype, String::from_utf8_lossy(&k.rdata)));
-                                    }
-                                    for k in got.difference(&want) {
-                                        push("C15", "announce:record-unexpected".into(), format!("node {}: the announcement of instance {:?} carries {} type {} rdata {:?} which the application did not describe", node, instance.name, name_to_string(&k.owner), k.rtype, String::from_utf8_lossy(&k.rdata)));
-                                    }
-                                    for a in &msg.additional {
-                                        let k = a.key().norm();
-                                        if !want.contains(&k) {
-                                            push("C15", "announce:record-unexpected".into(), format!("node {}: the announcement of instance {:?} carries additional record {} type {} which the application did not describe", node, instance.name, name_to_string(&k.owner), k.rtype));
-                                        }
-                                    }
+                                    judge_announcement(node, m, instance, *ttl, &msg, &mut findings_extra);
                                 }
                             }
                         }
@@ -902,6 +943,9 @@ pub fn analyse(sc: &Scenario, out: &RunOutput) -> Analysis {
         match (exp, exact) {
             (Some(exp), true) => {
                 st.known_exact += 1;
+                if is_tokio_node(sc, *node) {
+                    st.tokio_known_exact += 1;
+                }
                 if !exp.is_empty() {
                     st.known_exact_nonempty += 1;
                 }
@@ -1031,6 +1075,7 @@ pub fn analyse(sc: &Scenario, out: &RunOutput) -> Analysis {
         }
     }
 
+    findings.extend(findings_extra);
     findings.sort_by(|a, b| (a.prop, &a.sig).cmp(&(b.prop, &b.sig)));
     findings.dedup_by(|a, b| a.prop == b.prop && a.sig == b.sig);
     Analysis { findings, stats: st, model_states, harness_error }
@@ -1109,5 +1154,32 @@ fn compare_instances(prop: &'static str, what: &str, node: u32, exp: &[InstObs],
     }
     if got.len() != g.len() {
         findings.push(Finding { prop, sig: format!("{}:duplicate-instance", what), detail: format!("node {}: the same instance name is reported more than once", node) });
+    }
+}
+
+/// Advertiser side of C15: an announcement must carry exactly the records of the instance the
+/// application described (plus, at most, the service PTR pointing at it).
+fn judge_announcement(node: u32, m: &NodeModel, instance: &crate::scenario::InstSpec, ttl: u32, msg: &Msg, out: &mut Vec<Finding>) {
+    let want: BTreeSet<RecKey> = instance_records(&m.service, instance, ttl, false).iter().map(|r| r.key().norm()).collect();
+    let ptr = refdns::Rec { owner: m.service.clone(), rtype: t::PTR, class: 1, cache_flush: false, ttl, fields: vec![refdns::F::Name(m.instance_full.clone(), refdns::Comp::Must)] }.key().norm();
+    let got: BTreeSet<RecKey> = msg.answers.iter().map(|r| r.key().norm()).filter(|k| *k != ptr).collect();
+    for k in want.difference(&got) {
+        out.push(Finding { prop: "C15", sig: "announce:record-missing".into(), detail: format!("node {}: the announcement of instance {:?} lacks its {} record (type {}, rdata {:?})", node, instance.name, name_to_string(&k.owner), k.rtype, String::from_utf8_lossy(&k.rdata)) });
+    }
+    for k in got.difference(&want) {
+        out.push(Finding { prop: "C15", sig: "announce:record-unexpected".into(), detail: format!("node {}: the announcement of instance {:?} carries {} type {} rdata {:?} which the application did not describe", node, instance.name, name_to_string(&k.owner), k.rtype, String::from_utf8_lossy(&k.rdata)) });
+    }
+    for a in &msg.additional {
+        let k = a.key().norm();
+        if !want.contains(&k) {
+            out.push(Finding { prop: "C15", sig: "announce:record-unexpected".into(), detail: format!("node {}: the announcement of instance {:?} carries additional record {} type {} which the application did not describe", node, instance.name, name_to_string(&k.owner), k.rtype) });
+        }
+    }
+}
+
+fn is_tokio_node(sc: &Scenario, node: u32) -> bool {
+    match sc.nodes.get(node as usize).map(|n| &n.kind) {
+        Some(NodeKind::Discovery { asyncv, .. }) | Some(NodeKind::Responder { asyncv, .. }) | Some(NodeKind::Resolver { asyncv }) => *asyncv,
+        _ => false,
     }
 }
